@@ -243,6 +243,9 @@ def main():
             json.dump(v2, open(path, 'w'), indent=1)
             print('VIOLATION property=%s replay=%s' % (cid, path))
             print('  site=%s key=%s' % (v['site'], v.get('key', '')[:300]))
+            if v.get('kind') == 'crash':
+                for ln in v.get('detail', '').splitlines()[:14]:
+                    print('    | ' + ln[:220])
         rc = 1
     # violations that were counted but whose records were capped: make sure unknown sites are not lost
     known_sites = {k['site'] for k in known if k.get('status') == 'known' and k.get('property') == cid and not k.get('match')}
